@@ -8,6 +8,8 @@ mod bridge;
 mod ctx;
 mod mon;
 mod oracle;
+mod trace;
+mod matx;
 
 use ctx::{Ctx, Tier};
 
@@ -44,6 +46,7 @@ fn main() {
     }
 
     ctx::install_panic_hook();
+    trace::install();
 
     if prop == "SELFTEST" {
         let ok = oracle::selftest();
